@@ -1,1 +1,2 @@
 pub mod resp;
+pub mod deflate;
